@@ -532,8 +532,12 @@ func (c *candidateBase) transportAddressEqual(other Candidate) bool {
 		}
 	}
 
+	// Resolved addresses were compared above; the text only decides for unresolved (mDNS) candidates,
+	// so that one address written in two ways (IPv6 forms) is still one transport address.
+	sameHost := c.Address() == other.Address() || (c.addr() != nil && other.addr() != nil)
+
 	return c.NetworkType() == other.NetworkType() &&
-		c.Address() == other.Address() &&
+		sameHost &&
 		c.Port() == other.Port() &&
 		c.TCPType() == other.TCPType()
 }
